@@ -44,9 +44,12 @@ const (
 	TagPreOmit  = "pre-omit"  // `json:"x" avp:"N,omitempty"`
 	TagPost     = "post"      // `avp:"N" json:"x"`
 	TagPostOmit = "post-omit" // `avp:"N,omitempty" json:"x"`
+	// the other key has an option of its own: it is not the avp key's option
+	TagPostJOmit = "post-jomit" // `avp:"N" json:"x,omitempty"`
+	TagPreJOmit  = "pre-jomit"  // `json:"x,omitempty" avp:"N"`
 )
 
-var tagForms = []string{TagPlain, TagOmit, TagPre, TagPreOmit, TagPost, TagPostOmit}
+var tagForms = []string{TagPlain, TagOmit, TagPre, TagPreOmit, TagPost, TagPostOmit, TagPostJOmit, TagPreJOmit}
 
 // FieldT is the type half of one struct field.
 type FieldT struct {
@@ -73,7 +76,7 @@ func (ft FieldT) omitempty() bool {
 }
 
 func (ft FieldT) multiKey() bool {
-	return ft.Tag == TagPre || ft.Tag == TagPreOmit || ft.Tag == TagPost || ft.Tag == TagPostOmit
+	return ft.Tag == TagPre || ft.Tag == TagPreOmit || ft.Tag == TagPost || ft.Tag == TagPostOmit || ft.Tag == TagPostJOmit || ft.Tag == TagPreJOmit
 }
 
 func (ft FieldT) count(v FieldV) int {
@@ -211,6 +214,10 @@ func tagFor(ft FieldT, i int) reflect.StructTag {
 		return reflect.StructTag(j + " " + a)
 	case TagPost, TagPostOmit:
 		return reflect.StructTag(a + " " + j)
+	case TagPostJOmit:
+		return reflect.StructTag(a + " " + fmt.Sprintf(`json:"f%d,omitempty"`, i))
+	case TagPreJOmit:
+		return reflect.StructTag(fmt.Sprintf(`json:"f%d,omitempty"`, i) + " " + a)
 	}
 	return reflect.StructTag(a)
 }
